@@ -25,7 +25,7 @@
     persistent state, any allocator answers) + NewPeriodicSyncer. *)
 From BBS Require Import Common.Sx Persist.PBL Persist.PBLProofs Persist.Syncer Persist.SyncerProofs
   Persist.Shutdown Persist.ShutdownProofs Persist.ShutdownOrder Run.R03.
-From BBS Require Import Run.R03MonGhost Run.R03MonFields Run.R03MonReplay Run.R03Mon Run.R03MonAck Run.R03MonObs Run.R03MonEx.
+From BBS Require Import Run.R03MonGhost Run.R03MonFields Run.R03MonReplay Run.R03Mon Run.R03MonAck Run.R03MonObs Run.R03MonInherit Run.R03MonEx.
 Local Open Scope nat_scope.
 
 (** The ghost never influences the run. *)
@@ -275,6 +275,25 @@ Theorem mon03_obligations_sound : forall inp obs, replay03 inp obs = [] ->
 Proof. exact R03MonObs.mon03_obligations_sound. Qed.
 Print Assumptions mon03_obligations_sound.
 
+(** ... and over SEVERAL restarts: the monitor keeps a copy as an obligation over any number of
+    incarnations as long as every exit in between was graceful or followed a completed commit, while
+    the ghost of Shutdown.v starts every incarnation empty.  [chain_sound] (Run/R03MonInherit.v) starts
+    the ghost of the next incarnation on the acknowledgements the previous one left covered and still
+    listed ([inh_list], renumbered relative to the written state; sound because a covered
+    acknowledgement satisfies the invariant of the restarted list, [G_inherit]): for every accepted
+    observation in which every restart re-attached all blocks of the state file ([all_restored_h],
+    decidable; true on the 800 generated observations it was evaluated on), every incarnation is a run
+    of the model from NewPersistentBlockList on the state its predecessor left, and whenever the monitor
+    carries obligations on, the state on the medium covers every acknowledgement of this incarnation
+    AND every inherited one (rotation out of the list being the only excuse). *)
+Theorem mon03_obligations_sound_chain : forall inp obs, replay03 inp obs = [] ->
+  forallb all_restored_h (sx_list obs) = true ->
+  let c := sx_nth inp 0 in
+  chain_sound c (sx_nth inp 1) c (mkConfig (sx_N (sx_nth c 9)) (sx_N (sx_nth c 10))) (sx_Z (sx_nth c 0))
+              (sx_list (sx_nth inp 2)) (sx_list obs) m_init init_pstate 0%N [].
+Proof. exact R03MonInherit.mon03_obligations_sound_chain. Qed.
+Print Assumptions mon03_obligations_sound_chain.
+
 (** one incarnation, spelled out *)
 Theorem mon03_incarnation_sound : forall c cfg bs st0 now e0 es x0 x1 cfgsx objs ops m0,
   replay_restore c cfg bs st0 now e0 = Some x0 ->
@@ -311,6 +330,7 @@ Definition first_inc (inp obs : sx) : mst :=
 Example mon03_hyps_nonvacuous_graceful :
   is_marker exg_obs = false /\ replay03 exg_inp exg_obs = [] /\ u_obs exg_inp exg_obs = true /\
   mon03 exg_inp exg_obs = [] /\ length (sx_list exg_obs) = 2 /\
+  forallb all_restored_h (sx_list exg_obs) = true /\
   m_prev (first_inc exg_inp exg_obs) = 1%Z /\ length (m_copies (first_inc exg_inp exg_obs)) = 1 /\
   existsb (fun e => Z.eqb (tag e) 4 && Z.eqb (sx_Z (sx_nth e 2)) 1) (sx_list (sx_nth exg_obs 0)) = true.
 Proof. vm_compute. repeat split; reflexivity. Qed.
@@ -318,6 +338,7 @@ Proof. vm_compute. repeat split; reflexivity. Qed.
 Example mon03_hyps_nonvacuous_crash :
   is_marker exc_obs = false /\ replay03 exc_inp exc_obs = [] /\ u_obs exc_inp exc_obs = true /\
   mon03 exc_inp exc_obs = [] /\ length (sx_list exc_obs) = 3 /\
+  forallb all_restored_h (sx_list exc_obs) = true /\
   m_prev (first_inc exc_inp exc_obs) = 2%Z /\ length (m_copies (first_inc exc_inp exc_obs)) = 2.
 Proof. vm_compute. repeat split; reflexivity. Qed.
 
